@@ -840,6 +840,12 @@ func (e *Engine) instrShape(ins ssa.Instruction) []string {
 			}
 			out = append(out, "store "+name+"."+st.Underlying().(*types.Struct).Field(fa.Field).Name())
 		}
+		if ia, ok := i.Addr.(*ssa.IndexAddr); ok {
+			// element stores through a slice value (not the one-element arrays of variadic calls)
+			if sl, ok := ia.X.Type().Underlying().(*types.Slice); ok {
+				out = append(out, "storeelem "+types.TypeString(sl.Elem(), func(p *types.Package) string { return p.Name() }))
+			}
+		}
 	}
 	return out
 }
